@@ -28,18 +28,18 @@ class ToolError(Exception):
 # view: which observation channels are compared between model and implementation
 # level: evidence level category
 PROPS = {
-    "C01": dict(profiles=["core", "alloc", "value"], level="proof"),
-    "C02": dict(profiles=["core", "iters"], level="proof"),
-    "C03": dict(profiles=["core", "value"], level="proof"),
-    "C04": dict(profiles=["core", "alloc"], level="proof"),
-    "C05": dict(profiles=["core", "alloc"], level="proof"),
+    "C01": dict(extra=["enum"], profiles=["core", "alloc", "value"], level="proof"),
+    "C02": dict(extra=["enum"], profiles=["core", "iters"], level="proof"),
+    "C03": dict(extra=["enum"], profiles=["core", "value"], level="proof"),
+    "C04": dict(extra=["enum"], profiles=["core", "alloc"], level="proof"),
+    "C05": dict(extra=["enum"], profiles=["core", "alloc"], level="proof"),
     "C06": dict(profiles=["alloc", "core"], level="proof", extra=["stamps", "genwrap"]),
     "C07": dict(profiles=["alloc", "core"], level="proof"),
     "C08": dict(profiles=["alloc", "core", "value"], level="proof"),
     "C09": dict(profiles=["iters"], level="proof"),
     "C10": dict(profiles=["iters"], level="proof"),
     "C11": dict(profiles=["core", "alloc"], level="proof", extra=["selfcheck", "genwrap"]),
-    "C12": dict(profiles=["core", "alloc"], level="proof"),
+    "C12": dict(extra=["enum"], profiles=["core", "alloc"], level="proof"),
     "C13": dict(profiles=["value", "core"], level="proof", extra=["selfcheck", "determinism"]),
     "C14": dict(profiles=["print"], level="proof"),
     "C15": dict(profiles=[], level="proof", extra=["macro"]),
